@@ -160,7 +160,10 @@ def _iso_fields(draw, custom_ok=False):
         # its own molar mass / liquid density / cross-section in every case (what the analysis must read each time)
         d["adsorbate"] = CUSTOM_NAME
         d["custom"] = {"T": draw(st.sampled_from(_CUSTOM_T)), "M": draw(st.floats(4.0, 300.0)), "rho": draw(st.floats(0.1, 3.0)),
-                       "cs": draw(st.floats(0.05, 0.6))}
+                       "cs": draw(st.floats(0.05, 0.6)),
+                       # half of them: the user's description is a PRIVATE object handed to the isotherm, while the
+                       # registry holds another gas of the same name (a decoy with other constants)
+                       "private": draw(st.booleans())}
         d["units"]["p"] = list(draw(st.sampled_from([("relative", None), ("relative", None), ("relative%", None)])))
         d["units"]["l"] = list(draw(st.sampled_from([("molar", "mol"), ("molar", "mmol"), ("molar", "cm3(STP)")])))
     return d
@@ -439,6 +442,8 @@ def iso_env(desc):
     c = desc.get("custom")
     if c:
         props = dict(molar_mass=c["M"], liquid_density=c["rho"], cross_sectional_area=c["cs"])
+        if c.get("private"):
+            props = dict(molar_mass=c["M"] * 1.3, liquid_density=c["rho"] * 0.8, cross_sectional_area=c["cs"] * 1.2)
         for a in ADSORBATE_LIST:
             if a.name == CUSTOM_NAME:
                 a.properties = dict(props)
@@ -454,6 +459,15 @@ def iso_env(desc):
 
 def build_iso(desc, p_rel, q_mol, units=None, name="m-0", allow_des=True):
     """PointIsotherm holding the canonical data (relative pressure, mol per material unit) in the drawn units."""
+    iso = _build_iso(desc, p_rel, q_mol, units, name, allow_des)
+    c = desc.get("custom")
+    if c and c.get("private"):
+        iso.adsorbate = Adsorbate(CUSTOM_NAME, store=False, molar_mass=c["M"], liquid_density=c["rho"],
+                                  cross_sectional_area=c["cs"])
+    return iso
+
+
+def _build_iso(desc, p_rel, q_mol, units=None, name="m-0", allow_des=True):
     fluid, T, *_ = iso_env(desc)
     units = units or desc["units"]
     prep, lrep = tuple(units["p"]), tuple(units["l"])
